@@ -207,7 +207,7 @@ CLAIMS.update({
              "least one message' (C10_reported). Recursion (D8), faults inside parallel loops (D9), loop limits (D10), nested "
              "literal rules (D12a) and the raising lookups (D11) were refuted, were repaired in /repo and are now proved / "
              "reported. Still REFUTED on the faithful model: guard typing (D12b). Classes without a theorem (argument types, "
-             "operand types, literal value types and lengths, deeper path steps) are covered by correspondence only: all 100 "
+             "operand types, literal value types and lengths, deeper path steps) are covered by correspondence only: all 118 "
              "catalogue entries x 8 position kinds x wrapping depth 0..3; all of them are reported.",
         technique="Coq proof (induction on the statement tree, local lemma per fault class) + vm_compute witnesses "
                   "+ fault injection with differential correspondence",
